@@ -1,0 +1,10 @@
+//go:build verif
+
+package consul
+
+// Read-only export for the correspondence check of property C01 (/verif).
+
+// VerifC01ParseURLPrefixTag is parseURLPrefixTag.
+func VerifC01ParseURLPrefixTag(s, prefix string, env map[string]string) (route, opts string, ok bool) {
+	return parseURLPrefixTag(s, prefix, env)
+}
